@@ -28,8 +28,11 @@ impl<'a> ZoneStepRunner<'a> {
         let mut outputs: Vec<Vec<CandidateZone>> = Vec::with_capacity(order.len());
         let mut pruned: Option<Vec<String>> = None;
 
-        // Full segment list to use before pruning exists
-        let mut full_segments: Vec<String> = self._plan.segment_ids.read().unwrap().clone();
+        // Full segment list to use before pruning exists: the live segments that (still)
+        // serve the queried event type
+        let mut full_segments: Vec<String> = self
+            ._plan
+            .live_segments_serving(self._plan.event_scope().primary_uid());
         if let Some(tracker) = self._plan.inflight_segments() {
             let inflight = tracker.snapshot();
             for seg in &inflight {
